@@ -443,6 +443,9 @@ impl Report {
         self.excluded_known += other.excluded_known;
         for (k, v) in other.extra {
             match (self.extra.get(&k).and_then(|x| x.as_u64()), v.as_u64()) {
+                (Some(a), Some(b)) if k.starts_with("max_") => {
+                    self.extra.insert(k, json!(a.max(b)));
+                }
                 (Some(a), Some(b)) => {
                     self.extra.insert(k, json!(a + b));
                 }
